@@ -63,6 +63,9 @@ func (a *Authority) CreateAuthorityPolicy(ctx context.Context, adm *linkedca.Adm
 	}
 
 	if err := a.reloadPolicyEngines(ctx); err != nil {
+		// The policy is stored; enforce it even though it could not be
+		// read back, so that the CA does not keep working with the old one.
+		a.enforceAuthorityPolicy(p)
 		return nil, &PolicyError{
 			Typ: ReloadFailure,
 			Err: fmt.Errorf("error reloading policy engines when creating authority policy: %w", err),
@@ -88,6 +91,9 @@ func (a *Authority) UpdateAuthorityPolicy(ctx context.Context, adm *linkedca.Adm
 	}
 
 	if err := a.reloadPolicyEngines(ctx); err != nil {
+		// The policy is stored; enforce it even though it could not be
+		// read back, so that the CA does not keep working with the old one.
+		a.enforceAuthorityPolicy(p)
 		return nil, &PolicyError{
 			Typ: ReloadFailure,
 			Err: fmt.Errorf("error reloading policy engines when updating authority policy: %w", err),
@@ -109,6 +115,9 @@ func (a *Authority) RemoveAuthorityPolicy(ctx context.Context) error {
 	}
 
 	if err := a.reloadPolicyEngines(ctx); err != nil {
+		// The policy is stored; enforce it even though it could not be
+		// read back, so that the CA does not keep working with the old one.
+		a.enforceAuthorityPolicy(nil)
 		return &PolicyError{
 			Typ: ReloadFailure,
 			Err: fmt.Errorf("error reloading policy engines when deleting authority policy: %w", err),
@@ -116,6 +125,17 @@ func (a *Authority) RemoveAuthorityPolicy(ctx context.Context) error {
 	}
 
 	return nil
+}
+
+// enforceAuthorityPolicy sets the policy engine to the one for p, the authority
+// policy that was just written (nil when it was deleted).
+func (a *Authority) enforceAuthorityPolicy(p *linkedca.Policy) {
+	if _, ok := a.adminDB.(*linkedCaClient); ok {
+		return
+	}
+	if engine, err := authPolicy.New(authPolicy.LinkedToCertificates(p)); err == nil {
+		a.policyEngine = engine
+	}
 }
 
 func (a *Authority) checkAuthorityPolicy(ctx context.Context, currentAdmin *linkedca.Admin, p *linkedca.Policy) error {
